@@ -20,6 +20,9 @@ type Cfg struct {
 	// Modify alone, as a wallet that remembered its own leaves does; Verify(remember) is only
 	// called first when some deleted leaf is not cached yet.
 	Direct bool `json:"direct,omitempty"`
+	// NoVerify (partial map only, set by C12 and never drawn): Apply is Modify alone, one library call;
+	// the script itself contains the Verify(remember) step that a partial forest needs before a block.
+	NoVerify bool `json:"noverify,omitempty"`
 }
 
 func (c Cfg) String() string {
@@ -142,7 +145,7 @@ func (in *Inst) Apply(adds []u.Leaf, delH []Hash, proof u.Proof) error {
 	case in.P != nil:
 		return in.P.Modify(adds, cloneHashes(delH), cloneProof(proof))
 	default:
-		needVerify := !in.M.Full && len(delH) > 0
+		needVerify := !in.M.Full && len(delH) > 0 && !in.Cfg.NoVerify
 		if needVerify && in.Cfg.Direct {
 			needVerify = false
 			for _, h := range delH {
